@@ -353,6 +353,19 @@ def evaluate(case):
     p2 = np.asarray(p2, dtype=float)
     if d < 0:
         f10.append(fail("negative/" + fname, "d=%r" % d))
+    # conditioning: the intersection of two features that are nearly but not
+    # exactly parallel (|sin| = s in (0, 1e-2)) cannot be located better than
+    # eps * |coordinates| / s in float64, whatever the algorithm
+    smin = None
+    for _t1, f1 in P1.features():
+        for _t2, f2 in P2.features():
+            sn = float(np.linalg.norm(np.cross(f1, f2)))
+            if 1e-12 < sn < 1e-2 and (smin is None or sn < smin):
+                smin = sn
+    if smin is not None:
+        reach = L + float(np.linalg.norm(P1.center())) + float(np.linalg.norm(P2.center()))
+        tolp = tolp + 32.0 * np.finfo(float).eps * reach / smin
+        labels.append("ill-conditioned")
     r1, r2 = P1.resid(p1), P2.resid(p2)
     if r1 > tolp:
         f10.append(fail("off-primitive-1/" + fname,
